@@ -918,6 +918,271 @@ func runRebuild(k writeCase) ([]string, string) {
 }
 
 // ---------------------------------------------------------------------------
+// where a row goes: every kind of print destination in CSV/TSV output mode
+
+type destCase struct {
+	Kind string // see destKinds
+	Sep  rune
+	Rows [][]string
+	Pre  string // what the file holds before ">>"
+	Name string // which row set
+}
+
+var destKinds = []string{"stdout bytes.Buffer", "stdout *bufio.Writer 65536", "stdout *bufio.Writer 4096", "stdout *bufio.Writer 16",
+	"stdout *bufio.Writer 4095", "stdout Flush-method writer", "stdout *os.File", "print > file", "print >> file", "print | cat > file", "interleaved stdout / > file"}
+
+const clsSmallBufio = "CSV output to a *bufio.Writer smaller than 4096 bytes"
+
+// a writer with a Flush method that is not a *bufio.Writer
+type flushWriter struct{ w *bufio.Writer }
+
+func (f *flushWriter) Write(p []byte) (int, error) { return f.w.Write(p) }
+func (f *flushWriter) Flush() error                { return f.w.Flush() }
+
+func (k destCase) toFile(i int) bool {
+	switch k.Kind {
+	case "print > file", "print >> file", "print | cat > file":
+		return true
+	case "interleaved stdout / > file":
+		return i%2 == 1
+	}
+	return false
+}
+
+func (k destCase) src() string {
+	var sb strings.Builder
+	sb.WriteString("BEGIN {\n")
+	for i, row := range k.Rows {
+		sb.WriteString("  print ")
+		for j := range row {
+			if j > 0 {
+				sb.WriteString(", ")
+			}
+			fmt.Fprintf(&sb, "A(%d,%d)", i, j)
+		}
+		if k.toFile(i) {
+			switch k.Kind {
+			case "print >> file":
+				sb.WriteString(" >> P")
+			case "print | cat > file":
+				sb.WriteString(" | C")
+			default:
+				sb.WriteString(" > P")
+			}
+		}
+		sb.WriteString("\n")
+	}
+	sb.WriteString("}\n")
+	return sb.String()
+}
+
+// runDest: what reached standard output and what reached the file, after the run
+func runDest(k destCase) (stdout, file []byte, status string) {
+	defer func() {
+		if r := recover(); r != nil {
+			status = fmt.Sprintf("panic: %v", r)
+		}
+	}()
+	dir, err := os.MkdirTemp("", "c08dest")
+	if err != nil {
+		return nil, nil, "harness: " + err.Error()
+	}
+	defer os.RemoveAll(dir)
+	path := dir + "/out.csv"
+	if k.Kind == "print >> file" {
+		if err := os.WriteFile(path, []byte(k.Pre), 0o644); err != nil {
+			return nil, nil, "harness: " + err.Error()
+		}
+	}
+	fs := map[string]any{"A": func(i, j int) string { return k.Rows[i][j] }}
+	prog, err := parser.ParseProgram([]byte(k.src()), &parser.ParserConfig{Funcs: fs})
+	if err != nil {
+		return nil, nil, "harness: parse: " + err.Error()
+	}
+	mode, oc := outMode(k.Sep)
+	var buf, errb bytes.Buffer
+	cfg := &interp.Config{Funcs: fs, Environ: []string{}, OutputMode: mode, CSVOutput: oc, Error: &errb, Stdin: strings.NewReader(""),
+		Vars: []string{"P", path, "C", "cat > '" + path + "'"}}
+	var after func()
+	switch k.Kind {
+	case "stdout *bufio.Writer 65536", "stdout *bufio.Writer 4096", "stdout *bufio.Writer 16", "stdout *bufio.Writer 4095":
+		var n int
+		fmt.Sscanf(k.Kind, "stdout *bufio.Writer %d", &n)
+		w := bufio.NewWriterSize(&buf, n)
+		cfg.Output = w
+		after = func() { w.Flush() }
+	case "stdout Flush-method writer":
+		cfg.Output = &flushWriter{bufio.NewWriterSize(&buf, 64)}
+	case "stdout *os.File":
+		f, err := os.Create(dir + "/stdout")
+		if err != nil {
+			return nil, nil, "harness: " + err.Error()
+		}
+		cfg.Output = f
+		after = func() {
+			f.Close()
+			b, _ := os.ReadFile(dir + "/stdout")
+			buf.Write(b)
+		}
+	default:
+		cfg.Output = &buf
+	}
+	_, err = interp.ExecProgram(prog, cfg)
+	if after != nil {
+		after()
+	}
+	if err != nil {
+		return buf.Bytes(), nil, "err: " + err.Error()
+	}
+	file, _ = os.ReadFile(path)
+	if errb.Len() > 0 {
+		return buf.Bytes(), file, "stderr: " + errb.String()
+	}
+	return buf.Bytes(), file, "ok"
+}
+
+// the model requests: one per destination that received rows
+func (k destCase) modelLines() (stdoutLine, fileLine string) {
+	flag, layers := "0", "-"
+	switch k.Kind {
+	case "stdout *bufio.Writer 65536", "stdout *bufio.Writer 4096", "stdout *bufio.Writer 16", "stdout *bufio.Writer 4095":
+		flag, layers = "1", strings.TrimPrefix(k.Kind, "stdout *bufio.Writer ")
+	case "stdout Flush-method writer":
+		layers = "64"
+	}
+	var so, fo strings.Builder
+	fmt.Fprintf(&so, "emit %d 0 %s %s -", k.Sep, flag, layers)
+	fmt.Fprintf(&fo, "emit %d 0 0 65536 %s", k.Sep, hx.HexS(k.Pre)) // outFileStream / outCmdStream: a 64 KiB bufio.Writer
+	for i, row := range k.Rows {
+		b := &so
+		if k.toFile(i) {
+			b = &fo
+		}
+		b.WriteString(" /")
+		for _, f := range row {
+			b.WriteString(" " + hx.HexS(f))
+		}
+	}
+	return so.String(), fo.String()
+}
+
+func (k destCase) detail(want, got string) map[string]any {
+	return map[string]any{"kind": "dest", "destination": k.Kind, "rowset": k.Name, "program": k.src(), "separator": int(k.Sep), "rows_hex": rowsHex(k.Rows),
+		"rows": trunc(fmt.Sprintf("%q", k.Rows)), "pre_hex": hx.HexS(k.Pre), "want": trunc(want), "got": trunc(got),
+		"note": "A(i,j) = field j of row i; P = a temporary file, C = \"cat > P\"; want/got = the rows read back in CSV/TSV input mode from standard output (S:) and from the file (F:)"}
+}
+
+func (k destCase) class() string {
+	if k.Kind == "stdout *bufio.Writer 16" || k.Kind == "stdout *bufio.Writer 4095" {
+		return clsSmallBufio
+	}
+	return "csv output to " + k.Kind
+}
+
+// the rows that must be read back from standard output and from the file
+func (k destCase) wantRows() (so, fo [][]string) {
+	if k.Pre != "" {
+		for _, r := range refRead([]byte(k.Pre), k.Sep, 0) {
+			fo = append(fo, r.Fields)
+		}
+	}
+	for i, row := range k.Rows {
+		if k.toFile(i) {
+			fo = append(fo, row)
+		} else {
+			so = append(so, row)
+		}
+	}
+	return
+}
+
+func readBackRows(data []byte, sep rune) string {
+	if len(data) == 0 {
+		return "|eof"
+	}
+	p := parseRes(runRead(readCase{Data: data, Chunks: [][]byte{data}, Sep: sep, Via: "api", Cap: apiCap, Max: apiMax}))
+	var sb strings.Builder
+	for _, f := range p.fields {
+		sb.WriteString("R:" + f + ";")
+	}
+	return sb.String() + "|" + p.final
+}
+
+// search oracle: every row printed to a destination is read back from it, in order
+func oracleDest(k destCase, stdout, file []byte, status string, rep *hx.Report) {
+	rep.SearchEvals++
+	so, fo := k.wantRows()
+	want := "S:" + rowsString(so) + "|eof F:" + rowsString(fo) + "|eof"
+	if status != "ok" {
+		orc := orcStatus
+		if strings.HasPrefix(status, "panic") {
+			orc = orcNoPanic
+		}
+		rep.Fail(hx.Failure{Class: k.class(), Oracle: orc, Detail: k.detail(want, status)})
+		return
+	}
+	got := "S:" + readBackRows(stdout, k.Sep) + " F:" + readBackRows(file, k.Sep)
+	if got != want {
+		rep.Fail(hx.Failure{Class: k.class(), Oracle: orcRoundTrip, Detail: k.detail(want, got)})
+	}
+}
+
+func genDestCases(r *hx.Rand, thorough bool) []destCase {
+	big := func(n int) string { return strings.Repeat("x", n) }
+	type rs struct {
+		name string
+		rows [][]string
+		all  bool // through every destination kind (else only the main ones: large rows are slow in the model)
+	}
+	sets := []rs{
+		{"one row", [][]string{{"a", "b"}}, true},
+		{"lone empty field", [][]string{{""}}, true},
+		{"lone empty field between rows", [][]string{{"a"}, {""}, {"b", "c d"}, {""}}, true},
+		{"ten rows", [][]string{{"1", "a"}, {"2", "b"}, {"3", "c"}, {"4", "d"}, {"5", "e"}, {"6", "f"}, {"7", "g"}, {"8", "h"}, {"9", "i"}, {"10", "j"}}, true},
+		{"quotes separators line breaks", [][]string{{"a,b", "c\"d", "e\nf"}, {" x", "\t", ""}, {"\n"}, {"", ""}}, true},
+		{"row of 4095 bytes", [][]string{{big(4092), "y"}, {"z"}}, true},
+		{"row of 4097 bytes", [][]string{{big(4094), "y"}, {""}, {"z"}}, true},
+		{"row of 5000 bytes", [][]string{{"k"}, {big(5000), "y"}, {"z"}}, true},
+		{"row of 70000 bytes", [][]string{{"k"}, {big(70000), "y"}, {""}, {"z"}}, false},
+		{"two rows of 40000 bytes", [][]string{{big(40000)}, {big(40000), "q"}, {"z"}}, false},
+	}
+	n := 3
+	if thorough {
+		n = 40
+	}
+	for i := 0; i < n; i++ {
+		nr := 1 + r.Intn(5)
+		rows := make([][]string, nr)
+		for a := range rows {
+			nf := 1 + r.Intn(3)
+			for b := 0; b < nf; b++ {
+				rows[a] = append(rows[a], strings.ReplaceAll(randField(r, ',', false), "\xEF\xBB\xBF", "B"))
+			}
+		}
+		sets = append(sets, rs{fmt.Sprintf("random %d", i), rows, true})
+	}
+	var out []destCase
+	for si, set := range sets {
+		for _, kind := range destKinds {
+			main := kind == "stdout bytes.Buffer" || kind == "stdout *bufio.Writer 65536" || kind == "print > file" || kind == "interleaved stdout / > file"
+			if !set.all && !main && !(kind == "print | cat > file" && si%2 == 0) {
+				continue
+			}
+			if kind == "print | cat > file" && !thorough && si%3 != 0 && set.all {
+				continue // a process per case: only some row sets in the quick tier
+			}
+			sep := []rune{',', '\t', ';'}[(si+len(kind))%3]
+			k := destCase{Kind: kind, Sep: sep, Rows: set.rows, Name: set.name}
+			if kind == "print >> file" {
+				k.Pre = "p" + string(sep) + "q\n"
+			}
+			out = append(out, k)
+		}
+	}
+	return out
+}
+
+// ---------------------------------------------------------------------------
 // separator validation
 
 type validCase struct {
@@ -1039,7 +1304,7 @@ func main() {
 		addGroup(ioCfg{Sep: ','}, d, chs, "api", apiCap, apiMax, "around-buffer-size")
 	}
 
-	nRandom := 260
+	nRandom := 200
 	if o.N > 0 {
 		nRandom = o.N
 	}
@@ -1178,6 +1443,24 @@ func main() {
 			}
 			lines = append(lines, readCase{Chunks: [][]byte{[]byte(joined)}, Sep: k.Sep, Cap: 0, Max: apiMax}.line())
 		}
+	}
+
+	// ---- output destinations ----
+	dests := genDestCases(r, thorough)
+	type dres struct {
+		stdout, file []byte
+		status       string
+		soAt, foAt   int
+	}
+	dr := make([]dres, len(dests))
+	for i, k := range dests {
+		d := &dr[i]
+		d.stdout, d.file, d.status = runDest(k)
+		sl, fl := k.modelLines()
+		d.soAt = len(lines)
+		lines = append(lines, sl)
+		d.foAt = len(lines)
+		lines = append(lines, fl)
 	}
 
 	// ---- separator validation ----
@@ -1374,6 +1657,31 @@ func main() {
 		}
 	}
 
+	// ---- evaluate: output destinations ----
+	for i, k := range dests {
+		d := dr[i]
+		rep.Count("dest:" + k.Kind)
+		for _, x := range []struct {
+			at   int
+			impl []byte
+			what string
+		}{{d.soAt, d.stdout, "stdout"}, {d.foAt, d.file, "file"}} {
+			rep.CorrEvals++
+			rep.Distinct(lines[x.at] + k.Kind)
+			if model == nil {
+				continue
+			}
+			switch m := model[x.at]; {
+			case m == "unmod":
+				rep.Unmodelled++
+			case d.status != "ok" || m != "ok "+hx.Hex(x.impl):
+				rep.Mismatch(hx.Mismatch{Class: "dest/" + k.Kind + "/" + x.what, Input: trunc(lines[x.at]) + " rowset=" + k.Name,
+					Impl: d.status + " " + trunc(hx.Hex(x.impl)), Model: trunc(m)})
+			}
+		}
+		oracleDest(k, d.stdout, d.file, d.status, rep)
+	}
+
 	// ---- evaluate: validation ----
 	for i, v := range valids {
 		got := runValid(v)
@@ -1492,6 +1800,21 @@ func replay(o hx.Opts) int {
 		if st != "ok" || len(ls) != 1 || !strings.HasSuffix(strings.TrimSuffix(ls[0], ";"), fmt.Sprintf(":%d:%s", len(row), hexList(row))) {
 			rep.Fail(hx.Failure{Class: "replay", Oracle: orcRebuild})
 		}
+	case "dest":
+		var rows [][]string
+		if rh, ok := d["rows_hex"].([]any); ok {
+			for _, row := range rh {
+				var fs []string
+				for _, f := range row.([]any) {
+					fs = append(fs, string(hx.UnHex(f.(string))))
+				}
+				rows = append(rows, fs)
+			}
+		}
+		k := destCase{Kind: str("destination"), Sep: rune(num("separator")), Rows: rows, Pre: string(hx.UnHex(str("pre_hex"))), Name: str("rowset")}
+		so, fo, st := runDest(k)
+		fmt.Printf("destination: %s  rows: %s  sep=%q\nprogram:\n%sstatus: %s\nstandard output: %s\nfile: %s\n", k.Kind, trunc(fmt.Sprintf("%q", rows)), k.Sep, k.src(), st, trunc(fmt.Sprintf("%q", so)), trunc(fmt.Sprintf("%q", fo)))
+		oracleDest(k, so, fo, st, rep)
 	case "valid":
 		v := validCase{rune(num("separator")), rune(num("comment")), false}
 		v.ViaVar, _ = d["via_inputmode_var"].(bool)
